@@ -165,7 +165,7 @@ class Contract:
                  ghost_vars=None, requires=(), ensures=(), loops=None, hooks=(), yields=(), count=None,
                  raises=None, uses=(), lemmas=(), calls=None, serves=(), pure=False, trusted=False, notes="",
                  closure=None, self_type=None, modifies=(), effects=None, coerce=None,
-                 export_lemmas=True):
+                 export_lemmas=True, is_property=False, locals=None, frame_check=True):
         self.qualname = qualname
         self.params = params                      # dict name -> T (in signature order)
         self.returns = returns
@@ -193,6 +193,9 @@ class Contract:
         self.effects = effects or {}
         self.coerce = coerce or {}          # program variable -> 'Real' (a variable initialised with an int literal that holds floats)
         self.export_lemmas = export_lemmas
+        self.is_property = is_property
+        self.locals = locals or {}          # local variable -> T (element shape of lists that start empty)
+        self.frame_check = frame_check
 
 
 REGISTRY = {}
